@@ -10,6 +10,9 @@ Fail-closed: any statement, expression, method or name outside the recognised sh
    x: T = e           ->  x = e
    a < b < c          rejected;   elif -> nested if;   and/or of several operands -> nested binary and/or
    s.startswith(p)    ->  s.startswith(p, 0);   s.find(c) -> s.find(c, 0);   x not in t -> not (x in t)
+   x = f(a) / l.append(f(a)) with f a module-level helper of the same module whose body is straight-line/if statements
+                      ending in its only `return e`  ->  the helper inlined (parameters and locals renamed apart,
+                      arguments first, `return e` -> assignment to a fresh local); nested at most 3 deep
 Pinned (checked here up to inlining of single-use locals, not translated):
    _compile_pattern(pat)  returns  re.compile(translate(pat)).match
    qnmatch(name, pattern) returns  _compile_pattern(pattern)(name) is not None
@@ -42,10 +45,13 @@ CMP = {ast.Eq: 'CEq', ast.NotEq: 'CNe', ast.Lt: 'CLt', ast.LtE: 'CLe', ast.Gt: '
 
 
 class Fn:
-    def __init__(self, fn, re_names):
+    def __init__(self, fn, re_names, tree=None):
         self.fn = fn
         self.re_names = re_names              # names bound to the module `re`
+        self.tree = tree                      # the module: same-module helpers are inlined (see `inline`)
         self.vars = {}
+        self.ren = [{}]                       # stack of renamings of the locals of the helpers being inlined
+        self.ninl = 0
         a = fn.args
         if a.vararg or a.kwarg or a.kwonlyargs or a.posonlyargs or a.defaults or len(a.args) != 1:
             bad('parameter list of %s' % fn.name, fn)
@@ -58,6 +64,57 @@ class Fn:
         if name not in self.vars:
             self.vars[name] = len(self.vars)
         return self.vars[name]
+
+    def local(self, name):
+        """the caller-level name of a local (inside an inlined helper its locals are renamed apart)"""
+        r = self.ren[-1]
+        if len(self.ren) > 1:
+            if name not in r:
+                r[name] = '%s$%d$%s' % (r['$fn'], r['$k'], name)
+            return r[name]
+        return name
+
+    def helper(self, e):
+        """e is a call f(a1, ..., an) of a module-level, undecorated function of the same module whose body is
+        straight-line/if statements ending in its only `return <expr>` -> that FunctionDef"""
+        if not (isinstance(e, ast.Call) and isinstance(e.func, ast.Name) and not e.keywords and self.tree is not None):
+            return None
+        if self.local(e.func.id) in self.vars or e.func.id in ('len', 'translate', 'qnmatch', '_compile_pattern'):
+            return None
+        fs = [n for n in self.tree.body if isinstance(n, ast.FunctionDef) and n.name == e.func.id]
+        if len(fs) != 1:
+            return None
+        h = fs[0]
+        a = h.args
+        if h.decorator_list or a.vararg or a.kwarg or a.kwonlyargs or a.posonlyargs or a.defaults or len(a.args) != len(e.args):
+            bad('helper %s: decorators / parameter list' % h.name, h)
+        body = strip_doc(h.body)
+        rets = [n for n in ast.walk(h) if isinstance(n, ast.Return)]
+        if not body or not isinstance(body[-1], ast.Return) or len(rets) != 1 or body[-1].value is None:
+            bad('helper %s does not end in its only `return <expr>`' % h.name, h)
+        if any(isinstance(n, (ast.While, ast.For, ast.FunctionDef, ast.Lambda, ast.Global, ast.Nonlocal)) for n in ast.walk(h) if n is not h):
+            bad('helper %s is not straight-line' % h.name, h)
+        return h
+
+    def inline(self, call, h):
+        """statements that compute h(args) into a fresh local; returns (statements, name of that local).
+        Standard inlining: parameters and locals of the helper renamed apart, arguments evaluated first in the caller,
+        the final `return e` becomes the assignment of e to the result local.  The helper cannot see the caller's locals
+        and the language has no side effects other than assignments to locals, so this is the call's meaning."""
+        if len(self.ren) > 3:
+            bad('helpers nested too deep', call)
+        self.ninl += 1
+        args = [self.expr(a) for a in call.args]                      # in the caller's scope
+        self.ren.append({'$fn': h.name, '$k': self.ninl})
+        out = []
+        for prm, a in zip(h.args.args, args):
+            out.append('(SAssign %d %s)' % (self.var(self.local(prm.arg)), a))
+        body = strip_doc(h.body)
+        out.append(self.block(body[:-1]))
+        res = self.local('$result')
+        out.append('(SAssign %d %s)' % (self.var(res), self.expr(body[-1].value)))
+        self.ren.pop()
+        return [o for o in out if o != 'SSkip'], res
 
     # ---- expressions
     def strconst(self, e):
@@ -79,9 +136,10 @@ class Fn:
         if isinstance(e, ast.UnaryOp) and isinstance(e.op, ast.Not):
             return '(ENot %s)' % E(e.operand)
         if isinstance(e, ast.Name):
-            if e.id not in self.vars:
+            n = self.local(e.id)
+            if n not in self.vars:
                 bad('name %r is not a local bound before' % e.id, e)
-            return '(EVar %d)' % self.vars[e.id]
+            return '(EVar %d)' % self.vars[n]
         if isinstance(e, ast.List) and not e.elts:
             return 'EEmptyList'
         if isinstance(e, ast.Subscript):
@@ -156,7 +214,7 @@ class Fn:
             bad('assignment target', node)
         if target.id in ('len',) or target.id in self.re_names:
             bad('assignment shadows a builtin/module used by the translation', node)
-        return '(SAssign %d %s)' % (self.var(target.id), value_text)
+        return '(SAssign %d %s)' % (self.var(self.local(target.id)), value_text)
 
     def stmt(self, s):
         if isinstance(s, ast.Pass):
@@ -173,6 +231,10 @@ class Fn:
                     bad('tuple assignment whose right side mentions its targets', s)
                 vals = [self.expr(v) for v in s.value.elts]          # all right sides first (none mentions a target)
                 return self.seq([self.assign(x, v, s) for x, v in zip(t.elts, vals)])
+            h = self.helper(s.value)
+            if h is not None:
+                pre, res = self.inline(s.value, h)
+                return self.seq(pre + [self.assign(t, '(EVar %d)' % self.vars[res], s)])
             v = self.expr(s.value)
             return self.assign(t, v, s)
         if isinstance(s, ast.AnnAssign):
@@ -198,8 +260,13 @@ class Fn:
         if isinstance(s, ast.Expr) and isinstance(s.value, ast.Call):
             c = s.value
             if (isinstance(c.func, ast.Attribute) and c.func.attr == 'append' and isinstance(c.func.value, ast.Name)
-                    and len(c.args) == 1 and not c.keywords and c.func.value.id in self.vars):
-                return '(SAppend %d %s)' % (self.vars[c.func.value.id], self.expr(c.args[0]))
+                    and len(c.args) == 1 and not c.keywords and self.local(c.func.value.id) in self.vars):
+                lst = self.vars[self.local(c.func.value.id)]
+                h = self.helper(c.args[0])
+                if h is not None:
+                    pre, res = self.inline(c.args[0], h)
+                    return self.seq(pre + ['(SAppend %d (EVar %d))' % (lst, self.vars[res])])
+                return '(SAppend %d %s)' % (lst, self.expr(c.args[0]))
             bad('expression statement', s)
         bad('statement %s' % type(s).__name__, s)
 
@@ -262,7 +329,7 @@ def generate() -> dict:
 
     # ---- translate(): prelude; while <i> < <n>: body; return <ret>
     fn = find_fn(tree, 'translate')
-    F = Fn(fn, re_names)
+    F = Fn(fn, re_names, tree)
     body = strip_doc(fn.body)
     whiles = [k for k, s in enumerate(body) if isinstance(s, ast.While)]
     if len(whiles) != 1 or whiles[0] != len(body) - 2 or not isinstance(body[-1], ast.Return):
